@@ -56,6 +56,7 @@ type c11Case struct {
 	// nil error: every error is terminal, a success never is); 3 "not retryable" (true for nil and
 	// for T, false for the retryable errors E)
 	term   int
+	cancelIn int    // -1: never; k: the caller cancels from inside the k-th call of the IsTerminalError predicate, i.e. while the main loop is handling a result
 	pauses [][2]int // {k, ms}: before the k-th arrival wait until ms have passed since the first window closed
 	sorter   []int
 	sets     []c11Set
@@ -126,6 +127,9 @@ func (c *c11Case) fields() (cmd, opts, sets, script string) {
 		ca = itoa(c.cancelAt)
 	}
 	script = fmt.Sprintf("o=%s;p=%s;c=%s;w=%s", string(c.out), c11Ints(c.prio), ca, c11Ints(c.waits))
+	if c.cancelIn >= 0 {
+		script += ";x=" + itoa(c.cancelIn)
+	}
 	if len(c.pauses) > 0 {
 		ps := make([]string, len(c.pauses))
 		for i, p := range c.pauses {
@@ -228,12 +232,15 @@ func c11Quiesce() bool {
 type c11Err struct {
 	g    int
 	term bool
+	canc bool // outcome C: the callback gave up because its context was cancelled (wraps context.Canceled)
 }
 
 func (e *c11Err) Error() string { return "instance error " + itoa(e.g) }
 
 // the non-terminal errors are "retryable"
-func (e *c11Err) Is(target error) bool { return target == errC11Retryable && !e.term }
+func (e *c11Err) Is(target error) bool {
+	return (target == errC11Retryable && !e.term && !e.canc) || (target == context.Canceled && e.canc)
+}
 
 var errC11Retryable = errors.New("retryable")
 
@@ -333,13 +340,19 @@ func (x *c11Exec) call(ctx context.Context, d *ring.InstanceDesc, cancel context
 		}
 		return g, nil
 	case 'T':
-		err := &c11Err{g, true}
+		err := &c11Err{g: g, term: true}
+		if multi && cancel != nil {
+			cancel(err)
+		}
+		return 0, err
+	case 'C':
+		err := &c11Err{g: g, canc: true}
 		if multi && cancel != nil {
 			cancel(err)
 		}
 		return 0, err
 	default:
-		err := &c11Err{g, false}
+		err := &c11Err{g: g}
 		if multi && cancel != nil {
 			cancel(err)
 		}
@@ -361,6 +374,9 @@ func (x *c11Exec) cleanup(v int) {
 
 func c11ErrClass(err error) string {
 	var ie *c11Err
+	if own, ok := err.(*c11Err); ok { // the error of a callback itself (not a cancellation cause wrapping one)
+		return "i" + itoa(own.g)
+	}
 	switch {
 	case errors.Is(err, context.Canceled):
 		return "cancel"
@@ -532,6 +548,19 @@ func c11Run(cs *c11Case) string {
 	if cs.cancelAt == 0 {
 		cancelParent()
 		cancelled = true
+	}
+	if cs.cancelIn >= 0 && cfg.IsTerminalError != nil {
+		inner, calls := cfg.IsTerminalError, 0
+		cfg.IsTerminalError = func(err error) bool {
+			if calls == cs.cancelIn && !cancelled {
+				// the main loop is in the middle of handling a result: the caller goes away right now
+				cancelled = true
+				x.log("K")
+				cancelParent()
+			}
+			calls++
+			return inner(err)
+		}
 	}
 	x.t0 = time.Now()
 	launch := func() {
@@ -765,9 +794,12 @@ func c11RandScript(r *rng, c *c11Case) {
 		k := r.intn(100)
 		switch {
 		case k < pe:
-			if r.chance(1, 4) {
+			switch r.intn(8) {
+			case 0, 1:
 				c.out[i] = 'T'
-			} else {
+			case 2, 3:
+				c.out[i] = 'C'
+			default:
 				c.out[i] = 'E'
 			}
 		default:
@@ -779,8 +811,11 @@ func c11RandScript(r *rng, c *c11Case) {
 	}
 	c.prio = c11Perm(r, n)
 	c.cancelAt = -1
+	c.cancelIn = -1
 	if r.chance(1, 4) {
 		c.cancelAt = r.intn(n + 1)
+	} else if c.term != 0 && c.kind != 'd' && r.chance(1, 2) {
+		c.cancelIn = pick(r, []int{0, 0, 0, 1, 2})
 	}
 	if c.hedge && c.kind == 'd' {
 		if r.chance(2, 3) { // the delay timers fire once
@@ -859,10 +894,25 @@ func c11Random(r *rng) *c11Case {
 // (by then the hedged requests due at d and 2d must have been released), then the rest completes.
 func c11Timing(r *rng) *c11Case {
 	const d = 60
-	c := &c11Case{kind: pick(r, []byte{'q', 'w'}), min: true, hedge: true, delayMs: d, cancelAt: -1}
+	c := &c11Case{kind: pick(r, []byte{'q', 'w'}), min: true, hedge: true, delayMs: d, cancelAt: -1, cancelIn: -1}
 	c.term = pick(r, []int{0, 1, 3})
 	c.pauses = [][2]int{{0, d * 7 / 10}, {1, d * 14 / 10}, {2, d * 21 / 10}, {3, d * 29 / 10}}
-	switch r.intn(4) {
+	switch r.intn(6) {
+	case 4, 5:
+		// zone-aware, two zones held back; zone 0 fails well before the first hedging tick (the failure
+		// releases zone 2), zone 1 stays slow: the tick at d must still release zone 3, through which alone
+		// the quorum {2, 3} can be reached
+		if r.chance(1, 2) {
+			c.sets = []c11Set{{zones: []int{0, 1, 2, 3}, maxUnz: 2, za: r.chance(1, 2)}}
+			c.out = []byte("ESSS")
+			c.prio = []int{0, 2, 3, 1}
+		} else {
+			c.sets = []c11Set{{zones: []int{0, 0, 1, 2, 3, 3}, maxUnz: 2, za: r.chance(1, 2)}}
+			c.out = []byte("ESSSSS")
+			c.prio = []int{0, 3, 4, 5, 1, 2}
+		}
+		c.sorter = []int{0, 1, 2, 3}
+		c.pauses = [][2]int{{0, d * 3 / 10}, {1, d * 29 / 10}}
 	case 0: // flat, 4 of 6 needed, 2 held back
 		c.sets = []c11Set{{zones: []int{0, 1, 2, 0, 1, 2}, maxErr: 2}}
 		c.out = []byte("SSSSSS")
@@ -979,7 +1029,11 @@ func c11Exhaustive(n int, keep func() bool, addr func(n int) []int, tkind func()
 											term = tkind()
 										}
 									}
-									emit(&c11Case{kind: kind, min: mn, term: term, sets: []c11Set{set}, out: out, prio: p, cancelAt: ca})
+									cin := -1
+									if term != 0 && ca == -1 && (code+len(tols)+int(p[0]))%4 == 0 {
+										cin = code % 2 // the caller goes away while the main loop handles a failure
+									}
+									emit(&c11Case{kind: kind, min: mn, term: term, sets: []c11Set{set}, out: out, prio: p, cancelAt: ca, cancelIn: cin})
 								}
 							}
 						}
